@@ -1,8 +1,195 @@
-/- Driver handler of C05: protocol line (already split into tokens, without the leading "c05") -> answer. -/
+/-
+  Driver handler of C05: one line = one workbook + its layout + one whole history of set_value / evaluate-by-path.
+
+    c05 <cfg> <n> <spec>*n  <active> <ncells> (<sheet> <col> <row> <node>)*  <nranges> (<sheet> c1 r1 c2 r2 <node>)*
+        <nsheets> (<sheet> <max_col> <max_row>)*  <op>*
+      cfg   : nodata | stored | loaded
+      spec  : as in Drv/C01 (I <val> | F ref j | F cat k j* | F add a b | F sum k j* | F cnt k j* | F idx r row col |
+              R <rows> <cols> j*)
+      sheet : a space-free token; `-` = no sheet given (sheet-less address)
+      op    : S i <val> | E <path> | M <l|t|g> <k> <path>*k
+      path  : C <sheet> <col> <row> | R <sheet> c1 r1 c2 r2 | U <sheet> c1 r1 c2 r2      (0 = unbounded corner)
+    c05 clip c1 r1 c2 r2 <max_col> <max_row>   -> trimmed shape of the clipped unbounded address: sc | v:<n> | g:<r>:<c> | none
+  Answer: one item per operation joined by ';' — `ok`/`rej` for set_value; for evaluate the trimmed result:
+    scalar token | `v:<n> tok…` | `g:<r>:<c> tok…` | `!err`; a list `L{ item , item }`, a tuple/generator `T{ … }`.
+  The model runs with the repaired equality test `typedEq`.  Trusted glue, not part of any theorem.
+-/
 import Pycel.Model.Proto
+import Pycel.Model.Access
 namespace Pycel.Drv.C05
+open Pycel Pycel.Engine Pycel.EngineInst Pycel.Access Pycel.Addr
+
+partial def takeNats : Nat → List String → Option (List Nat × List String)
+  | 0, ts => some ([], ts)
+  | k+1, t :: ts => do
+    let j ← t.toNat?
+    let (js, rest) ← takeNats k ts
+    some (j :: js, rest)
+  | _, [] => none
+
+partial def parseSpecs : Nat → List String → Option (List Spec × List String)
+  | 0, ts => some ([], ts)
+  | k+1, ts => do
+    let (sp, rest) ← (match ts with
+      | "I" :: v :: rest => do some (Spec.inp (← Val.dec? v), rest)
+      | "F" :: "ref" :: j :: rest => do some (Spec.fml (.ref (← j.toNat?)), rest)
+      | "F" :: "add" :: a :: b :: rest => do some (Spec.fml (.add (← a.toNat?) (← b.toNat?)), rest)
+      | "F" :: "idx" :: r :: row :: col :: rest => do
+          some (Spec.fml (.idx (← r.toNat?) (← row.toNat?) (← col.toNat?)), rest)
+      | "F" :: "cat" :: k :: rest => do
+          let (js, rest) ← takeNats (← k.toNat?) rest
+          some (Spec.fml (.cat js), rest)
+      | "F" :: "sum" :: k :: rest => do
+          let (js, rest) ← takeNats (← k.toNat?) rest
+          some (Spec.fml (.sum js), rest)
+      | "F" :: "cnt" :: k :: rest => do
+          let (js, rest) ← takeNats (← k.toNat?) rest
+          some (Spec.fml (.cnt js), rest)
+      | "R" :: r :: c :: rest => do
+          let r ← r.toNat?
+          let c ← c.toNat?
+          let (js, rest) ← takeNats (r*c) rest
+          some (Spec.rng (chunk c r js), rest)
+      | _ => none : Option (Spec × List String))
+    let (sps, rest) ← parseSpecs k rest
+    some (sp :: sps, rest)
+
+def sheetOf (t : String) : Str := if t = "-" then [] else t.toList
+
+partial def parseCells : Nat → List String → Option (List (Cell × Nat) × List String)
+  | 0, ts => some ([], ts)
+  | k+1, sh :: c :: r :: nd :: rest => do
+    let e : Cell × Nat := (⟨sheetOf sh, ← c.toNat?, ← r.toNat?⟩, ← nd.toNat?)
+    let (es, rest) ← parseCells k rest
+    some (e :: es, rest)
+  | _, _ => none
+
+partial def parseRanges : Nat → List String → Option (List (Rect × Nat) × List String)
+  | 0, ts => some ([], ts)
+  | k+1, sh :: c1 :: r1 :: c2 :: r2 :: nd :: rest => do
+    let e : Rect × Nat := (⟨sheetOf sh, ← c1.toNat?, ← r1.toNat?, ← c2.toNat?, ← r2.toNat?⟩, ← nd.toNat?)
+    let (es, rest) ← parseRanges k rest
+    some (e :: es, rest)
+  | _, _ => none
+
+partial def parseUsed : Nat → List String → Option (List (Str × Nat × Nat) × List String)
+  | 0, ts => some ([], ts)
+  | k+1, sh :: mc :: mr :: rest => do
+    let e : Str × Nat × Nat := (sheetOf sh, ← mc.toNat?, ← mr.toNat?)
+    let (es, rest) ← parseUsed k rest
+    some (e :: es, rest)
+  | _, _ => none
+
+def parsePath : List String → Option (Path × List String)
+  | "C" :: sh :: c :: r :: rest => do some (.cell ⟨sheetOf sh, ← c.toNat?, ← r.toNat?⟩, rest)
+  | "R" :: sh :: c1 :: r1 :: c2 :: r2 :: rest => do
+    some (.range ⟨sheetOf sh, ← c1.toNat?, ← r1.toNat?, ← c2.toNat?, ← r2.toNat?⟩, rest)
+  | "U" :: sh :: c1 :: r1 :: c2 :: r2 :: rest => do
+    some (.unbounded ⟨sheetOf sh, ← c1.toNat?, ← r1.toNat?, ← c2.toNat?, ← r2.toNat?⟩, rest)
+  | _ => none
+
+partial def parsePaths : Nat → List String → Option (List Path × List String)
+  | 0, ts => some ([], ts)
+  | k+1, ts => do
+    let (p, rest) ← parsePath ts
+    let (ps, rest) ← parsePaths k rest
+    some (p :: ps, rest)
+
+partial def parseOps : List String → Option (List (POp EV))
+  | [] => some []
+  | "S" :: i :: v :: rest => do
+    let ops ← parseOps rest
+    some (.set (← i.toNat?) (.sc (← Val.dec? v)) :: ops)
+  | "E" :: rest => do
+    let (p, rest) ← parsePath rest
+    let ops ← parseOps rest
+    some (.eval (.one p) :: ops)
+  | "M" :: kind :: k :: rest => do
+    let c ← (match kind with
+      | "l" => some Container.list
+      | "t" => some Container.tuple
+      | "g" => some Container.gen
+      | _ => none)
+    let (ps, rest) ← parsePaths (← k.toNat?) rest
+    let ops ← parseOps rest
+    some (.eval (.many c ps) :: ops)
+  | _ => none
+
+def encOut : Out Val → String
+  | .sc v => v.enc
+  | .vec l => " ".intercalate (s!"v:{l.length}" :: l.map Val.enc)
+  | .grid g => " ".intercalate (s!"g:{g.length}:{(g.headD []).length}" :: g.flatten.map Val.enc)
+  | .err => "!err"
+
+def encRes : Res Val → String
+  | .one o => encOut o
+  | .many tuple os => (if tuple then "T{ " else "L{ ") ++ " , ".intercalate (os.map encOut) ++ " }"
+
+def storedOf (wb : Workbook) (f : Nat → (Nat → EV) → EV) (inp : Nat → EV) : Nat → Option EV :=
+  let s := (List.range wb.n).foldl (fun s a => (evaluate wb f a s).2) (initNoData inp)
+  fun j => match wb.kind j with
+    | .formula => s.cache j
+    | _ => none
+
+def runOps (wb : Workbook) (f : Nat → (Nat → EV) → EV) (L : Layout) : State EV → List (POp EV) → List String
+  | _, [] => []
+  | s, .set i v :: h =>
+    let ok := decide (i < wb.n) && decide (wb.kind i = .input) && s.built i
+    (if ok then "ok" else "rej") :: runOps wb f L (setValue wb typedEq i v s) h
+  | s, .eval a :: h =>
+    let r := evalArg wb f L evTup a s
+    encRes r.1 :: runOps wb f L r.2 h
+
+/-- `c05 clip c1 r1 c2 r2 mc mr`: the trimmed shape of the unbounded address clipped to the used area (1,1,mc,mr) -/
+def clipShape (c1 r1 c2 r2 mc mr : Nat) : String :=
+  match clip ⟨[], c1, r1, c2, r2⟩ mc mr with
+  | none => "none"
+  | some R =>
+    match trimDims R.rows with
+    | .sc _ => "sc"
+    | .vec l => s!"v:{l.length}"
+    | .grid g => s!"g:{g.length}:{(g.headD []).length}"
+    | .err => "!err"
 
 def handle : List String → String
+  | ["c05", "clip", c1, r1, c2, r2, mc, mr] =>
+    match c1.toNat?, r1.toNat?, c2.toNat?, r2.toNat?, mc.toNat?, mr.toNat? with
+    | some c1, some r1, some c2, some r2, some mc, some mr => clipShape c1 r1 c2 r2 mc mr
+    | _, _, _, _, _, _ => "!bad-clip"
+  | "c05" :: cfg :: n :: rest =>
+    match n.toNat? with
+    | none => "!bad-n"
+    | some n =>
+      match parseSpecs n rest with
+      | none => "!bad-spec"
+      | some (specs, active :: nc :: rest) =>
+        (match nc.toNat?.bind (fun k => parseCells k rest) with
+        | some (cells, nr :: rest) =>
+          (match nr.toNat?.bind (fun k => parseRanges k rest) with
+          | some (ranges, ns :: rest) =>
+            (match ns.toNat?.bind (fun k => parseUsed k rest) with
+            | some (used, rest) =>
+              (match parseOps rest with
+              | none => "!bad-op"
+              | some ops =>
+                if !wfCheck specs then "!notwf" else
+                if !layoutCheck specs cells ranges specs.length then "!badlayout" else
+                let wb := mkWb specs
+                let f := sem specs
+                let inp := inputsOf specs
+                let L := mkLayout (sheetOf active) cells ranges used specs.length
+                let s0? : Option (State EV) :=
+                  if cfg = "nodata" then some (initNoData inp)
+                  else if cfg = "stored" then some (initStored inp (storedOf wb f inp))
+                  else if cfg = "loaded" then some (initLoaded wb f inp)
+                  else none
+                match s0? with
+                | none => "!bad-cfg"
+                | some s0 => ";".intercalate (runOps wb f L s0 ops))
+            | none => "!bad-used")
+          | _ => "!bad-ranges")
+        | _ => "!bad-cells")
+      | some _ => "!bad-layout"
   | _ => "!bad-op"
 
 end Pycel.Drv.C05
